@@ -301,8 +301,9 @@ Fixpoint order_sensitive (t : tree) : bool :=
 Definition render_scalar (s : scalar) : bytes :=
   match s with
   | SNaN _ => [40;115;113;114;116;32;45;49;41]            (* (sqrt -1) *)
-  | SPInf => [49;101;51;57]                               (* 1e39 *)
-  | SNInf => [45;49;101;51;57]
+  (* an out-of-range literal is no longer infinite (it is NaN with a warning): overflow by arithmetic *)
+  | SPInf => [40;49;101;51;56;32;42;32;49;48;41]          (* (1e38 * 10) *)
+  | SNInf => [40;45;49;101;51;56;32;42;32;49;48;41]       (* (-1e38 * 10) *)
   | _ => print_scalar s
   end.
 Fixpoint render_tree (t : tree) : bytes :=
